@@ -386,4 +386,262 @@ theorem walk_tail (l : Loop) (p : Nat) (pa : Bytes) (q f : Option Bytes) (hl : l
       rw [hfa2, hu2, hu1, hfa1]
       rfl
 
+/-! ## `http_parse_host` on the server section -/
+
+theorem hfacts_userinfo : ∀ n, n < 256 → isUserinfoCharN n = true →
+    hostCharN .userinfoStart n = .userinfo ∧ hostCharN .userinfo n = .userinfo := by decide +kernel
+theorem hfacts_host : ∀ n, n < 256 → isHostCharN n = true →
+    hostCharN .hostStart n = .host ∧ hostCharN .host n = .host := by decide +kernel
+theorem hfacts_v6 : ∀ n, n < 256 → (isHexN n || n == 58 || n == 46) = true →
+    hostCharN .v6Start n = .v6 ∧ hostCharN .v6 n = .v6 := by decide +kernel
+theorem hfacts_port : ∀ n, n < 256 → isNumN n = true →
+    hostCharN .portStart n = .port ∧ hostCharN .port n = .port := by decide +kernel
+theorem hfacts_delims : hostCharN .userinfo 64 = .hostStart ∧ hostCharN .hostStart 91 = .v6Start ∧
+    hostCharN .v6 93 = .v6End ∧ hostCharN .host 58 = .portStart ∧ hostCharN .v6End 58 = .portStart := by decide +kernel
+
+/-- the field update of one step: from state `s` into state `ns` at position `p` -/
+def hostUpd (u : Url) (s ns : HS) (p : Nat) : Url :=
+  match ns with
+  | .host => { u with host := if s ≠ .host then ⟨w16 p, w16 (u.host.len + 1)⟩ else ⟨u.host.off, w16 (u.host.len + 1)⟩ }
+  | .v6 => { u with host := if s ≠ .v6 then ⟨w16 p, w16 (u.host.len + 1)⟩ else ⟨u.host.off, w16 (u.host.len + 1)⟩ }
+  | .port => if s ≠ .port then u.put .port ⟨w16 p, 1⟩ else u.put .port { (u.get .port) with len := w16 ((u.get .port).len + 1) }
+  | .userinfo => if s ≠ .userinfo then u.put .userinfo ⟨w16 p, 1⟩ else u.put .userinfo { (u.get .userinfo) with len := w16 ((u.get .userinfo).len + 1) }
+  | _ => u
+
+/-- one step of the loop, spelled out -/
+theorem hostLoop_cons (u : Url) (s : HS) (p : Nat) (ch : UInt8) (rest : Bytes) :
+    hostLoop u s p (ch :: rest) =
+      if hostCharN s ch.toNat = .dead then u
+      else hostLoop (hostUpd u s (hostCharN s ch.toNat) p) (hostCharN s ch.toNat) (p + 1) rest := by
+  simp only [hostLoop, hostChar, hostUpd]
+  split
+  · rfl
+  · congr 1
+    cases hostCharN s ch.toNat <;> simp
+
+/-- a run of characters inside the user-info or the port -/
+theorem hostLoop_run_put (s : HS) (uf : UF) (hs : (s = .userinfo ∧ uf = .userinfo) ∨ (s = .port ∧ uf = .port)) :
+    ∀ (cs : Bytes) (u : Url) (p : Nat) (rest : Bytes),
+      (∀ c ∈ cs, hostCharN s c.toNat = s) → (u.get uf).len + cs.length < 65536 →
+      u.put uf (u.get uf) = u →
+      hostLoop u s p (cs ++ rest) = hostLoop (bumpLen u uf cs.length) s (p + cs.length) rest := by
+  intro cs
+  induction cs with
+  | nil =>
+    intro u p rest _ _ hflag
+    have : bumpLen u uf 0 = u := by unfold bumpLen; simpa using hflag
+    simp [this]
+  | cons c cs ih =>
+    intro u p rest hall hlen hflag
+    have hc : hostCharN s c.toNat = s := hall c (by simp)
+    simp only [List.cons_append, hostLoop_cons, hc]
+    have hnd : s ≠ .dead := by rcases hs with ⟨rfl, _⟩ | ⟨rfl, _⟩ <;> simp
+    rw [if_neg hnd]
+    simp only [List.length_cons] at hlen
+    have hstep : hostUpd u s s p = bumpLen u uf 1 := by
+      rcases hs with ⟨rfl, rfl⟩ | ⟨rfl, rfl⟩
+      · simp only [hostUpd, ne_eq, not_true_eq_false, if_false, bumpLen]; rw [w16_small (by omega)]
+      · simp only [hostUpd, ne_eq, not_true_eq_false, if_false, bumpLen]; rw [w16_small (by omega)]
+    rw [hstep]
+    have := ih (bumpLen u uf 1) (p + 1) rest (fun x hx => hall x (by simp [hx]))
+      (by unfold bumpLen; rw [get_put_same]; simp only; omega) (bumpLen_flag u uf 1)
+    rw [this, bumpLen_bumpLen]
+    simp only [List.length_cons]
+    rw [show 1 + cs.length = cs.length + 1 by omega, show p + 1 + cs.length = p + (cs.length + 1) by omega]
+
+/-- a run of characters inside the host name / the IPv6 literal -/
+theorem hostLoop_run_host (s : HS) (hs : s = .host ∨ s = .v6) :
+    ∀ (cs : Bytes) (u : Url) (p : Nat) (rest : Bytes),
+      (∀ c ∈ cs, hostCharN s c.toNat = s) → u.host.len + cs.length < 65536 →
+      hostLoop u s p (cs ++ rest) = hostLoop { u with host := ⟨u.host.off, u.host.len + cs.length⟩ } s (p + cs.length) rest := by
+  intro cs
+  induction cs with
+  | nil => intro u p rest _ _; simp
+  | cons c cs ih =>
+    intro u p rest hall hlen
+    have hc : hostCharN s c.toNat = s := hall c (by simp)
+    simp only [List.cons_append, hostLoop_cons, hc]
+    have hnd : s ≠ .dead := by rcases hs with rfl | rfl <;> simp
+    rw [if_neg hnd]
+    simp only [List.length_cons] at hlen
+    have hstep : hostUpd u s s p = { u with host := ⟨u.host.off, u.host.len + 1⟩ } := by
+      rcases hs with rfl | rfl
+      · simp only [hostUpd, ne_eq, not_true_eq_false, if_false]; rw [w16_small (by omega)]
+      · simp only [hostUpd, ne_eq, not_true_eq_false, if_false]; rw [w16_small (by omega)]
+    rw [hstep]
+    have := ih { u with host := ⟨u.host.off, u.host.len + 1⟩ } (p + 1) rest (fun x hx => hall x (by simp [hx]))
+      (by simp only; omega)
+    rw [this]
+    simp only [List.length_cons]
+    rw [show u.host.len + 1 + cs.length = u.host.len + (cs.length + 1) by omega,
+      show p + 1 + cs.length = p + (cs.length + 1) by omega]
+
+theorem hostLoop_userinfo (x0 : UInt8) (xs rest : Bytes) (u : Url) (p : Nat)
+    (hx0 : isUserinfoCharN x0.toNat = true) (hxs : ∀ c ∈ xs, isUserinfoCharN c.toNat = true) (hp : p + xs.length + 1 < 65536) :
+    hostLoop u .userinfoStart p (x0 :: (xs ++ 64 :: rest)) =
+      hostLoop (u.put .userinfo ⟨p, xs.length + 1⟩) .hostStart (p + (xs.length + 1) + 1) rest := by
+  rw [hostLoop_cons, (hfacts_userinfo _ (toNat_lt256 x0) hx0).1]
+  simp only [reduceCtorEq, if_false]
+  have h1 : hostUpd u .userinfoStart .userinfo p = u.put .userinfo ⟨p, 1⟩ := by
+    simp only [hostUpd, ne_eq, reduceCtorEq, not_false_eq_true, if_true]; rw [w16_small (by omega)]
+  rw [h1]
+  rw [hostLoop_run_put .userinfo .userinfo (Or.inl ⟨rfl, rfl⟩) xs _ (p + 1) (64 :: rest)
+    (fun c hc => (hfacts_userinfo _ (toNat_lt256 c) (hxs c hc)).2)
+    (by rw [get_put_same]; simp only; omega) (by rw [get_put_same, put_put])]
+  have e64 : (64 : UInt8).toNat = 64 := rfl
+  rw [hostLoop_cons, e64, hfacts_delims.1]
+  simp only [reduceCtorEq, if_false, hostUpd, bumpLen, get_put_same, put_put]
+  rw [show 1 + xs.length = xs.length + 1 by omega, show p + 1 + xs.length + 1 = p + (xs.length + 1) + 1 by omega]
+
+theorem hostLoop_name (h0 : UInt8) (hs rest : Bytes) (u : Url) (p : Nat)
+    (hh0 : isHostCharN h0.toNat = true) (hhs : ∀ c ∈ hs, isHostCharN c.toNat = true)
+    (hp : p + hs.length + 1 < 65536) (hl : u.host.len = 0) :
+    hostLoop u .hostStart p (h0 :: (hs ++ rest)) =
+      hostLoop { u with host := ⟨p, hs.length + 1⟩ } .host (p + (hs.length + 1)) rest := by
+  rw [hostLoop_cons, (hfacts_host _ (toNat_lt256 h0) hh0).1]
+  simp only [reduceCtorEq, if_false]
+  have h1 : hostUpd u .hostStart .host p = { u with host := ⟨p, 1⟩ } := by
+    simp only [hostUpd, ne_eq, reduceCtorEq, not_false_eq_true, if_true, hl]
+    rw [w16_small (by omega), w16_small (by omega)]
+  rw [h1]
+  rw [hostLoop_run_host .host (Or.inl rfl) hs _ (p + 1) rest
+    (fun c hc => (hfacts_host _ (toNat_lt256 c) (hhs c hc)).2) (by simp only; omega)]
+  simp only
+  rw [show 1 + hs.length = hs.length + 1 by omega, show p + 1 + hs.length = p + (hs.length + 1) by omega]
+
+theorem hostLoop_v6 (v0 : UInt8) (vs rest : Bytes) (u : Url) (p : Nat)
+    (hv0 : (isHexN v0.toNat || v0.toNat == 58 || v0.toNat == 46) = true)
+    (hvs : ∀ c ∈ vs, (isHexN c.toNat || c.toNat == 58 || c.toNat == 46) = true)
+    (hp : p + vs.length + 3 < 65536) (hl : u.host.len = 0) :
+    hostLoop u .hostStart p (91 :: v0 :: (vs ++ 93 :: rest)) =
+      hostLoop { u with host := ⟨p + 1, vs.length + 1⟩ } .v6End (p + 1 + (vs.length + 1) + 1) rest := by
+  have e91 : (91 : UInt8).toNat = 91 := rfl
+  have e93 : (93 : UInt8).toNat = 93 := rfl
+  rw [hostLoop_cons, e91, hfacts_delims.2.1]
+  simp only [reduceCtorEq, if_false, hostUpd]
+  rw [hostLoop_cons, (hfacts_v6 _ (toNat_lt256 v0) hv0).1]
+  simp only [reduceCtorEq, if_false]
+  have h1 : hostUpd u .v6Start .v6 (p + 1) = { u with host := ⟨p + 1, 1⟩ } := by
+    simp only [hostUpd, ne_eq, reduceCtorEq, not_false_eq_true, if_true, hl]
+    rw [w16_small (by omega), w16_small (by omega)]
+  rw [h1]
+  rw [hostLoop_run_host .v6 (Or.inr rfl) vs _ (p + 1 + 1) (93 :: rest)
+    (fun c hc => (hfacts_v6 _ (toNat_lt256 c) (hvs c hc)).2) (by simp only; omega)]
+  rw [hostLoop_cons, e93, hfacts_delims.2.2.1]
+  simp only [reduceCtorEq, if_false, hostUpd]
+  rw [show 1 + vs.length = vs.length + 1 by omega, show p + 1 + 1 + vs.length + 1 = p + 1 + (vs.length + 1) + 1 by omega]
+
+theorem hostLoop_port (d0 : UInt8) (ds : Bytes) (u : Url) (s : HS) (p : Nat) (hs : s = .host ∨ s = .v6End)
+    (hd0 : isNumN d0.toNat = true) (hds : ∀ c ∈ ds, isNumN c.toNat = true) (hp : p + ds.length + 2 < 65536) :
+    hostLoop u s p (58 :: d0 :: ds) = u.put .port ⟨p + 1, ds.length + 1⟩ := by
+  have e58 : (58 : UInt8).toNat = 58 := rfl
+  have hd : hostCharN s 58 = .portStart := by
+    rcases hs with rfl | rfl
+    · exact hfacts_delims.2.2.2.1
+    · exact hfacts_delims.2.2.2.2
+  rw [hostLoop_cons, e58, hd]
+  simp only [reduceCtorEq, if_false, hostUpd]
+  rw [hostLoop_cons, (hfacts_port _ (toNat_lt256 d0) hd0).1]
+  simp only [reduceCtorEq, if_false]
+  have h1 : hostUpd u .portStart .port (p + 1) = u.put .port ⟨p + 1, 1⟩ := by
+    simp only [hostUpd, ne_eq, reduceCtorEq, not_false_eq_true, if_true]; rw [w16_small (by omega)]
+  rw [h1]
+  have := hostLoop_run_put .port .port (Or.inr ⟨rfl, rfl⟩) ds (u.put .port ⟨p + 1, 1⟩) (p + 1 + 1) []
+    (fun c hc => (hfacts_port _ (toNat_lt256 c) (hds c hc)).2)
+    (by rw [get_put_same]; simp only; omega) (by rw [get_put_same, put_put])
+  simp only [List.append_nil] at this
+  rw [this]
+  simp only [hostLoop, bumpLen, get_put_same, put_put]
+  rw [show 1 + ds.length = ds.length + 1 by omega]
+
+/-! ## decimal numbers -/
+
+theorem ofNat_toNat_small {n : Nat} (h : n < 256) : (UInt8.ofNat n).toNat = n := by
+  simp [UInt8.toNat_ofNat, Nat.mod_eq_of_lt h]
+
+theorem digitsVal_decimal : ∀ (n acc : Nat) (rest : Bytes),
+    digitsVal acc (decimal n ++ rest) = digitsVal (acc * 10 ^ (decimal n).length + n) rest := by
+  intro n
+  induction n using Nat.strongRecOn with
+  | _ n ih =>
+    intro acc rest
+    rw [decimal]
+    split
+    · rename_i h
+      have hd : (UInt8.ofNat (48 + n)).toNat = 48 + n := ofNat_toNat_small (by omega)
+      simp only [List.singleton_append, digitsVal, isNum, isNumN, hd, List.length_singleton, Nat.pow_one]
+      rw [if_pos (by simp; omega)]
+      congr 1
+      omega
+    · rename_i h
+      have hlt : n / 10 < n := by omega
+      rw [List.append_assoc, ih (n / 10) hlt acc]
+      have hd : (UInt8.ofNat (48 + n % 10)).toNat = 48 + n % 10 := ofNat_toNat_small (by omega)
+      simp only [List.singleton_append, digitsVal, isNum, isNumN, hd, List.length_append, List.length_singleton, Nat.pow_succ]
+      rw [if_pos (by simp; omega)]
+      congr 1
+      have := Nat.div_add_mod n 10
+      rw [Nat.add_mul, Nat.mul_assoc]
+      omega
+
+theorem decimal_digits : ∀ (n : Nat), ∀ c ∈ decimal n, isNumN c.toNat = true := by
+  intro n
+  induction n using Nat.strongRecOn with
+  | _ n ih =>
+    intro c hc
+    rw [decimal] at hc
+    split at hc
+    · rename_i h
+      simp only [List.mem_singleton] at hc
+      rw [hc, ofNat_toNat_small (by omega)]
+      simp [isNumN]; omega
+    · rename_i h
+      simp only [List.mem_append, List.mem_singleton] at hc
+      rcases hc with hc | hc
+      · exact ih (n / 10) (by omega) c hc
+      · rw [hc, ofNat_toNat_small (by omega)]
+        simp [isNumN]; omega
+
+theorem decimal_ne_nil (n : Nat) : decimal n ≠ [] := by
+  rw [decimal]; split <;> simp
+
+/-- `strtoul` on a port written in decimal, followed by nothing or by a character that is not a digit -/
+theorem digitsVal_port (n : Nat) (rest : Bytes) (hr : rest = [] ∨ ∃ c cs, rest = c :: cs ∧ isNum c = false) :
+    digitsVal 0 (decimal n ++ rest) = n := by
+  rw [digitsVal_decimal]
+  simp only [Nat.zero_mul, Nat.zero_add]
+  rcases hr with rfl | ⟨c, cs, rfl, hc⟩
+  · rfl
+  · simp [digitsVal, hc]
+
+/-! ## whole-list versions of the server walks -/
+
+theorem walk_server_plain' (sv rest : Bytes) (l : Loop) (p : Nat) (hl : l.s = .serverStart) (hold : l.oldUf = some .schema)
+    (hne : sv ≠ []) (hall : sv.all isSrv = true) (hp : p + sv.length < 65536) :
+    urlLoop l p (sv ++ rest) =
+      urlLoop { s := .server, oldUf := some .host, foundAt := l.foundAt, u := l.u.put .host ⟨p, sv.length⟩ } (p + sv.length) rest := by
+  cases sv with
+  | nil => exact absurd rfl hne
+  | cons r0 rs =>
+    simp only [List.all_cons, Bool.and_eq_true] at hall
+    have := walk_server_plain r0 rs rest l p hl hold hall.1 hall.2 (by simp only [List.length_cons] at hp; omega)
+    simpa using this
+
+theorem walk_server_cred' (x sv rest : Bytes) (l : Loop) (p : Nat) (hl : l.s = .serverStart) (hold : l.oldUf = some .schema)
+    (hxne : x ≠ []) (hx : x.all isSrv = true) (hne : sv ≠ []) (hall : sv.all isSrv = true)
+    (hp : p + (x.length + 1 + sv.length) < 65536) :
+    urlLoop l p (x ++ 64 :: (sv ++ rest)) =
+      urlLoop { s := .server, oldUf := some .host, foundAt := true, u := l.u.put .host ⟨p, x.length + 1 + sv.length⟩ }
+        (p + (x.length + 1 + sv.length)) rest := by
+  cases x with
+  | nil => exact absurd rfl hxne
+  | cons x0 xs =>
+    cases sv with
+    | nil => exact absurd rfl hne
+    | cons r0 rs =>
+      simp only [List.all_cons, Bool.and_eq_true] at hall hx
+      have := walk_server_cred x0 xs r0 rs rest l p hl hold hx.1 hx.2 hall.1 hall.2
+        (by simp only [List.length_cons] at hp; omega)
+      simpa using this
+
 end KsiVerif.Uri
